@@ -10,7 +10,7 @@ class NameSanitizer(ABC):
 
 
 class BuiltinNameSanitizer(NameSanitizer):
-    _BAD_CHARS = re.compile(r"\W")
+    _BAD_CHARS = re.compile(r"\W", re.ASCII)
     _TRANSLATE_MAP = str.maketrans({".": "_", "[": "_"})
 
     def sanitize(self, name: str) -> str:
